@@ -346,7 +346,7 @@ func c05r4(c *Ctx) {
 }
 
 func c05r5(c *Ctx) {
-	f := c.P.Fn("coreutils", "", "MineBlock")
+	f := c.P.Views("coreutils", ir.ExpandOpt{Key: "all"}).Of(c.P.Fn("coreutils", "", "MineBlock"))
 	g := f.Graph()
 	c.VisitGraph(f)
 	n := 0
